@@ -40,7 +40,7 @@ CUTOFF = (2025, 6, 18)
 NEIGH = ["2025-06-17", "2025-06-18", "2025-06-19", "2025-05-18", "2025-07-18", "2024-06-18", "2026-06-18", "2025-06-01", "2025-06-30",
          "2025-01-01", "2025-12-31", "2024-12-31", "2026-01-01", "2025-05-31", "2025-07-01", "2025-06-08", "2025-06-28", "2025-10-01", "2025-02-19"]
 SUPPORTED = ["2025-06-18", "2025-03-26", "2024-11-05"]
-INVALID_MEMBERS = ["int", "str", "null", "id_only", "both_result_error", "error_no_code", "method_int", "nested_nonempty", "nested_empty", "params_scalar"]
+INVALID_MEMBERS = ["int", "str", "null", "id_only", "both_result_error", "error_no_code", "method_int", "nested_nonempty", "nested_empty", "params_scalar", "id_float", "id_array", "id_object"]
 
 
 def _rand_version(rng):
@@ -84,7 +84,11 @@ def member_json(m):
             "error_no_code": {"jsonrpc": "2.0", "id": k, "error": {"message": "m"}},
             "method_int": {"jsonrpc": "2.0", "id": k, "method": 7},
             "nested_nonempty": [{"jsonrpc": "2.0", "method": "a/b"}], "nested_empty": [],
-            "params_scalar": {"jsonrpc": "2.0", "id": k, "method": "m", "params": 3}}[m["invalid"]]
+            "params_scalar": {"jsonrpc": "2.0", "id": k, "method": "m", "params": 3},
+            # ids that are neither a string nor an integer (MCP allows nothing else)
+            "id_float": {"jsonrpc": "2.0", "id": k + 0.5, "method": "roots/list"},
+            "id_array": {"jsonrpc": "2.0", "id": [k], "result": {"k": k}},
+            "id_object": {"jsonrpc": "2.0", "id": {"k": k}, "method": "roots/list"}}[m["invalid"]]
 
 
 def _prelude_note(q):
